@@ -424,6 +424,15 @@ func c08Check(carrier string, body, blk []byte, items []c08Item, expectReject bo
 			}
 		}
 		return ""
+	case "0704x":
+		if !expectReject {
+			return "" // (the well-formed case is judged through "0704")
+		}
+		var t model.T0x0704
+		if err := t.Parse(c08Msg(body)); err == nil {
+			return "accept|item with impossible length accepted|0704 (in an element that is not the last)"
+		}
+		return ""
 	case "0801":
 		var t model.T0x0801
 		if err := t.Parse(c08Msg(body)); err != nil {
@@ -459,6 +468,17 @@ func c08Bodies(blk []byte, items []c08Item) map[string][]byte {
 		b7 = append(b7, it...)
 	}
 	out["0704"] = b7
+	{
+		// the same items in the FIRST element of a batch whose last element is well-formed and carries items of its own (an
+		// error met in one element must not be forgotten when a later element parses)
+		good := append(append([]byte{}, blk...), 0x01, 0x04, 0x00, 0x01, 0xe2, 0x40)
+		bx := []byte{0, 3, 1}
+		for _, it := range [][]byte{loc, blk, good} {
+			bx = append(bx, byte(len(it)>>8), byte(len(it)))
+			bx = append(bx, it...)
+		}
+		out["0704x"] = bx
+	}
 	if len(items) == 0 {
 		out["0801"] = append(append([]byte{0, 0, 0, 9, 0, 0, 1, 2}, blk...), 0xaa, 0xbb, 0xcc)
 	}
@@ -509,7 +529,7 @@ func c08Items(c *core.Collector, x *Ctx) {
 	c.Rule = "items: every item ID 0..255 x every length 0..40 (0..255 for unknown IDs) as single item, admissible lengths compared field by field, inadmissible must be rejected; " +
 		"sequences of 1..12 items in random order with duplicates and one optional impossible length, through 0x0200 and both items of a 0x0704. " +
 		"non-trivial = body with at least one item; distinct by hash of (carrier, body)"
-	all := []string{"0200", "0704", "0801"}
+	all := []string{"0200", "0704", "0704x", "0801"}
 	type sj struct{ id, l int }
 	var jobs []sj
 	for id := 0; id < 256; id++ {
@@ -672,7 +692,7 @@ func c08Items(c *core.Collector, x *Ctx) {
 			}
 			items = append(items, c08Item{id, core.Hex(ct)})
 		}
-		c08Run(c, blk, items, rej, true, "sequence", "0200", "0704")
+		c08Run(c, blk, items, rej, true, "sequence", "0200", "0704", "0704x")
 		// truncated item stream: the last item cut short must be rejected
 		if !rej && r.Chance(1, 4) {
 			ib := c08ItemsBytes(items)
